@@ -4,7 +4,7 @@ sys.path.insert(0, os.path.dirname(os.path.dirname(os.path.abspath(__file__))))
 import z3
 from aovc.check import run_check
 from aovc import effects, frontend
-from contracts import centroiders, imaging, fourier, atmos
+from contracts import centroiders, imaging, fourier, atmos, estimators
 
 RECIPE_OF = {}   # qualname -> native recipe name (same names by construction)
 
@@ -52,6 +52,8 @@ def build(chk):
         fourier.obligations(chk, real_variants=False)     # (the real-input variants have no batch clause of their own)
     with chk.borrow("C17"):
         atmos.axis_obligations(chk)
+    with chk.borrow("C19"):
+        estimators.obligations(chk)          # temporal power spectra of slope data with leading batch axes
     chk.assumptions_used.update(["A-NP"])
     chk.notes.append("view / copy / in-place behaviour of NumPy calls is taken from the tables in aovc/effects.py (VIEW_FUNCS, VIEW_METHODS, MUTATING_METHODS, MUTATING_FUNCS, PURE_METHODS): trusted")
     chk.notes.append("batch clause (per item = single call): the per-item obligations of C09 (batch axis), C15 (stack vs frame), C16 (binning of stacks), C17 (axis argument) are re-generated and discharged in this check (names prefixed [Cxx])")
